@@ -201,6 +201,13 @@ def extract_lt(tree):
   if not (_returns(last) is not None and _is_native_lt(_returns(last), l, r)):
     raise TranslatorError('lt: does not end in `return left < right`')
   dispatch.append('native')
+  if dict_keys == 'sorted-by-lt':
+    sk = common.find_func(tree, '_sorted_keys')
+    src = ast.unparse(sk)
+    arg = sk.args.args[0].arg
+    if not (f'sorted({arg}.keys(), key=functools.cmp_to_key(' in src
+            and 'lambda x, y: -1 if lt(x, y) else 1 if lt(y, x) else 0' in src):
+      raise TranslatorError('_sorted_keys: not `sorted(d.keys(), key=cmp_to_key(<three-way lt>))`')
   return {'dispatch': dispatch, 'prim_types': prim_types, 'dict_key_cmp': dict_key_cmp,
           'dict_keys': dict_keys}
 
@@ -211,13 +218,17 @@ def _dict_branch(node, l, r):
   for s in node.body:
     if isinstance(s, ast.Assign) and isinstance(s.value, ast.Call):
       f = _name(s.value.func)
+      k = None
       if f in ('list', 'sorted') and s.value.args:
         a = s.value.args[0]
         if isinstance(a, ast.Call) and isinstance(a.func, ast.Attribute) and a.func.attr == 'keys':
           k = 'position' if f == 'list' else 'sorted'
-          if keys_kind not in (None, k):
-            raise TranslatorError('lt: dict branch enumerates the two key lists differently')
-          keys_kind = k
+      elif f == '_sorted_keys' and len(s.value.args) == 1 and _name(s.value.args[0]) in (l, r):
+        k = 'sorted-by-lt'
+      if k is not None:
+        if keys_kind not in (None, k):
+          raise TranslatorError('lt: dict branch enumerates the two key lists differently')
+        keys_kind = k
   if keys_kind is None:
     raise TranslatorError('lt: dict branch: key enumeration not recognised')
   loops = [s for s in node.body if isinstance(s, ast.For)]
@@ -287,8 +298,16 @@ def extract_hash(dtree, ltree, otree):
   src = ast.unparse(common.find_func(ocls, 'sym_eq'))
   eq_exact = 'type(self) is type(other)' in src and 'base.eq(self._sym_attributes, other._sym_attributes)' in src
   src = ast.unparse(common.find_func(ocls, 'sym_lt'))
-  lt_same = ('type(self) is not type(other)' in src
-             and 'base.lt(self._sym_attributes, other._sym_attributes)' in src)
+  if 'type(self) is not type(other)' not in src:
+    lt_same = 'unknown'
+  elif ('list(lattrs.keys()) == list(rattrs.keys())' in src
+        and 'base.lt(list(lattrs.sym_values()), list(rattrs.sym_values()))' in src
+        and 'base.lt(lattrs, rattrs)' in src):
+    lt_same = 'declaration-order'
+  elif 'base.lt(self._sym_attributes, other._sym_attributes)' in src:
+    lt_same = 'as-dict'
+  else:
+    lt_same = 'unknown'
   return dict_comb, eq_exact, lt_same
 
 
@@ -331,7 +350,7 @@ def run():
   L.append('def neIsNotEq : Bool := ' + common.lean_bool(ne_ok))
   L.append('def dictHashComb : String := ' + common.lean_str(dict_comb))
   L.append('def objectEqExactType : Bool := ' + common.lean_bool(eq_exact))
-  L.append('def objectLtSameClassOnly : Bool := ' + common.lean_bool(lt_same))
+  L.append('def objectLtFields : String := ' + common.lean_str(lt_same))
   L.append('')
   L.append('end Pg.C06.Gen')
   L.append('')
